@@ -342,7 +342,7 @@ func checkC17(prop, tier string) int {
 	budget := 170 * time.Second
 	if tier == "thorough" {
 		maxBound = 2
-		budget = 25 * time.Minute
+		budget = 12 * time.Minute
 	}
 	pool := NewPool()
 	pool.Exe = exe
